@@ -101,6 +101,7 @@ func WorkerMain(t *testing.T) {
 	}
 	out := &outWriter{f: of, enc: json.NewEncoder(of)}
 	defer os.RemoveAll(ScratchBase())
+	defer os.RemoveAll(ScratchBase() + "-aux")
 
 	if rp := os.Getenv("VERIF_REPLAY"); rp != "" {
 		replayMain(out, prop, rp)
